@@ -217,3 +217,49 @@ Definition check (t : case_t) : nat :=
   if negb (list_eqb op_eqb (observable mt) otrace && result_eqb mr ores) then
     (if Nat.eqb spec_bad 0 then 1%nat else spec_bad)
   else spec_bad.
+
+(* ---------------------------------------------------------------------- *)
+(* construction histories on shared member objects (family 'shared' of harness/c18.py) *)
+(* the attributes (dataset_mode as a number, return_ctx) read off a real member object *)
+Definition mattr := (option nat * option bool)%type.
+Definition onat_eqb (a b : option nat) : bool :=
+  match a, b with Some x, Some y => Nat.eqb x y | None, None => true | _, _ => false end.
+Definition obool_eqb (a b : option bool) : bool :=
+  match a, b with Some x, Some y => Bool.eqb x y | None, None => true | _, _ => false end.
+Definition mattr_eqb (a b : mattr) : bool := onat_eqb (fst a) (fst b) && obool_eqb (snd a) (snd b).
+
+(* one observed step: an entry point was built / called; [snap] = the members' attributes afterwards.
+   A call carries the entry point's OWN dataset mode, the modes its members were handed, and the call as an
+   ordinary case of the entry point's own configuration (rc, entry, members, batch, trace, result) *)
+Inductive hobs :=
+| OBuild (snap : list mattr)
+| OCall (own : nat) (passed : list nat) (c : case_t) (snap : list mattr).
+
+Inductive xcase_t :=
+| XOne (c : case_t)
+| XHist (init : list mattr) (steps : list hobs).
+
+(* 8 = building / calling an entry point changed the configuration attributes of a member collator,
+   9 = a member was handed another dataset mode than the entry point's own;
+   a call is judged by [check] against the model of a FRESH configuration of the entry point's own
+   (theorem entry_point_independent_of_other_entry_points: that is what the object-level model computes) *)
+Definition step_code (init : list mattr) (s : hobs) : nat :=
+  match s with
+  | OBuild snap => if list_eqb mattr_eqb snap init then 0%nat else 8%nat
+  | OCall own passed c snap =>
+      let r := check c in
+      if Nat.leb 2 r then r else
+      if negb (forallb (Nat.eqb own) passed) then 9%nat else
+      if negb (list_eqb mattr_eqb snap init) then 8%nat else r
+  end.
+(* the first spec failure (>= 2) if there is one, else 1 if some call drifted from the model, else 0 *)
+Definition combine (codes : list nat) : nat :=
+  match filter (Nat.leb 2) codes with
+  | c :: _ => c
+  | [] => if existsb (Nat.eqb 1) codes then 1%nat else 0%nat
+  end.
+Definition xcheck (t : xcase_t) : nat :=
+  match t with
+  | XOne c => check c
+  | XHist init steps => combine (map (step_code init) steps)
+  end.
